@@ -309,6 +309,19 @@ def run(repo, rep):
                 rep.check(ok, 'C10.e', '%s:single-element-shortcut' % f.qualname, '%s:%d' % (f.module.relpath, node.lineno),
                           'whole-container access only for len == 1',
                           '%s materialises %s outside the len(%s) == 1 shortcut' % (f.name, src(node), value), nontrivial=True)
+    # the elements shown are the first N in the container's *own* iteration order: a printer must not hand on a re-hashed copy
+    # (set(value) / frozenset(value) iterate in the order of a table of another size, and drop duplicates of a list)
+    for r in facts.registry(repo):
+        if r.fn is None or r.module is not m or r.key not in ('frozenset', 'set', 'list', 'tuple', 'deque', "'collections.deque'"):
+            continue
+        f = r.fn
+        for c in ast.walk(f.node):
+            if isinstance(c, ast.Call) and call_name(c) in ('set', 'frozenset') and c.args and src(c.args[0]) == f.params[0]:
+                n += 1
+                rep.fail('C10.e', '%s:rehashed-copy:%s' % (f.qualname, src(c)), '%s:%d' % (f.module.relpath, c.lineno),
+                         '%s prints %s instead of the container itself: a set built from it iterates in the order of its own hash table, so '
+                         'with max_seq_len the elements shown are not the first ones of the value (and the count of a list with duplicates '
+                         'is wrong)' % (f.name, src(c)))
     rep.floor('C10.e', n, 3)
 
 
